@@ -14,7 +14,7 @@ COMMON_ASSUMPTIONS = [
     "NeoVM integers are 256-bit signed; runtime.Notify enforces manifest event types (all hardforks enabled, as on the neotest chain)",
 ]
 
-HOOK_COMMITS = []
+HOOK_COMMITS = ["02a5fb3"]
 
 NOT_APPLICABLE = []
 
@@ -83,5 +83,45 @@ PROPS = {
         "harness_test": "TestC20",
         "explanation": "Refinement theorems by induction over all histories (Proofs/Stores*.v); listings via a generic prefix-scan library (Proofs/StoreLib.v); correspondence on seeded histories over epochs {0,1,127,128,255,256,257,65535,65536,2^31,-1} incl. the F2 witness corpus",
         "assumptions": ["container ids are 32-byte SHA-256 digests and node hashes 20-byte RIPEMD-160 digests whose 10-byte truncation does not collide within a history (ehist_ok); CleanupDelta >= 0", "neo-go 0.107: storage Get/Find with a key longer than 64 bytes faults (modelled, observed)"],
+    },
+    "C04": {
+        "level_text": "Refinement of the Container storage (six key prefixes) to a registry spec (live map + tombstone set) proved in Coq for every history: index consistency invariant, all getters = spec getters (sorted, duplicate-free listings), get is a SHA-256 pre-image, not-found faults, deletion wipes every storage trace and is final, exactly one Put/Delete/SetEACLSuccess per successful call; the NNS-record part of deletion is refuted for the code as it is (second alias of a live container, finding C04/realias) and proved under 'at most one alias per id, alias domain live at deletion, foreign NNS writes are not ids'; model tied to the five compiled contracts by a differential correspondence check",
+        "level_note": "Trusted: Coq kernel; hand-written model (Container + NNS slice + NeoFSID.addKey + Netmap config over the Balance model) validated by seeded differential runs on the neo-go VM (committee 1; 4 and 7 in thorough); SHA-256/Base58 injective (explicit premises); Serialize/Deserialize inverse; prefix families independent (raw scan compared); storage size limits, gas, NNS admin field, non-TXT records not modelled",
+        "technique": TECH_INV,
+        "harness_test": "TestC04",
+        "explanation": "Invariant + refinement by induction over histories (Proofs/ContainerRegistry.v, ContainerNNS.v); corpus: F13 witness, fee thresholds, malformed inputs, NNS interplay incl. expired alias domain",
+        "assumptions": ["cid_of (SHA-256) injective", "for C04_delete_total_partial: b58 injective, wf_alias (one alias per id; alias domain registered and unexpired at delete; direct NNS TXT writes are not Base58 ids)"],
+    },
+    "C05": {
+        "level_text": "Exact-fee and atomicity theorems proved in Coq for every state, context (any Alphabet size, signer set, time) and argument of the combined Container/Balance/Netmap-config/NNS/NeoFSID model: a successful put/putNamed/putMeta debits the owner fee*N, credits fee per Alphabet account, emits exactly N TransferX (details 0x10++cid) + PutSuccess and stores the container in the same step, with the fee values configured at that moment (config = accepted setConfig calls over any history); insufficient balance, negative/missing fee or any other fault leaves all five states unchanged; correspondence on the compiled contracts",
+        "level_note": "Trusted: Coq kernel; hand-written model validated differentially (balances steered to fee*N-1, fee*N, fee*N+1; fees 0,1,7,10^9,-1,2^254; committee 1 quick, 4 and 7 thorough); VM atomicity; relies on the F1 fix for negative fees",
+        "technique": "machine-checked proof in Rocq (Coq): one-step theorems for all states + history lemma + model/implementation correspondence",
+        "harness_test": "TestC05",
+        "explanation": "One-step exactness from every state (Proofs/Container.v: pay_all_spec over Balance.transfer_spec), lifted over histories with fee changes",
+        "assumptions": ["none beyond the common ones (no premise on hashes)"],
+    },
+    "C14": {
+        "level_text": "Refinement theorem (storage-level roster with the real counter codec refines the list specification after every history: nodes/replicasNumbers = last commit in submission order, commit empties pending, acceptance = add_ok/commit_ok incl. contiguity) and soundness/completeness/submit theorems for verifyPlacementSignatures (for every store, matrix and verification relation) proved in Coq; model tied to the code by a differential correspondence check on the compiled container contract with real P-256 signatures",
+        "level_note": "Trusted: Coq kernel; hand-written model validated differentially (ECDSA, key decoding, std.Deserialize and the 1024-byte event limit enter the model as tables computed by neo-go's own code); premises: 32-byte cid, other methods do not write under u/n/r++cid (frame_ok), no pending vector exceeds 65535 keys (range_ok; C14_counter_order shows the bound is sharp)",
+        "technique": TECH_INV,
+        "harness_test": "TestC14",
+        "explanation": "Invariant Rc (storage encodes the list specification) by induction over all histories (Proofs/PlacementRefine.v); verify soundness/completeness by induction over the nested loops for an abstract sigvalid (Proofs/PlacementVerify.v); counter order by kernel computation over 0..65535; correspondence incl. the F6 witness corpus, 300-key vectors, boundary vector/REP values, submitObjectPut variants",
+        "assumptions": ["replicas/publicKeys/sigs items are byte strings resp. integers (type-confused arguments such as a Null public-key list are outside the op type)", "sigvalid/pubvalid/deser/notify_fits are arbitrary in the theorems; in the correspondence they are tables computed by neo-go"],
+    },
+    "C18": {
+        "level_text": "Equivalences for ALL byte strings between the NNS scanners (model of checkFragment/safeSplitAndCheck, checkIPv4, checkIPv6, checkRecord over models of std.StringSplit/Atoi10/Atoi16) and a grammar written from the property text and RFC 1035/4291: names, A, AAAA, TXT, CNAME, type dispatch; boolean grammar proved equivalent to the declarative one and evaluated on every observed string",
+        "level_note": "Trusted: Coq kernel; hand-written models of the scanners and of three StdLib natives, tied to the compiled contract by 3-valued (accept / reject / fault-in-check) comparison on exhaustive families enumerated on both sides and on listed mutation/random strings; 'public unicast'/'global unicast' are the exclusion lists the source documents (DESIGN section 5); inertness of a rejection = VM atomicity (checked on 20 persisted rejected transactions)",
+        "technique": "machine-checked proof in Rocq (Coq): scanner = grammar for all strings + model/implementation correspondence",
+        "harness_test": "TestC18",
+        "explanation": "Proofs by split/join algebra, characterisation lemmas for Atoi10/Atoi16, and a shape classification of the checkIPv6 loop; cases_C18*.v print M/MX (impl vs model) and MG (impl vs grammar_b)",
+        "assumptions": ["entry points exercised: isAvailable, register, registerTLD (names); addRecord on a domain without records, setRecord on a domain with one record per type (data); invocations are test invocations on a fixed state, so non-syntactic faults are classified by their message ('TLD not found', 'TLD denied', 'not a TLD', ... come after the check)"],
+    },
+    "C13": {
+        "level_text": "Pure helpers (fund division, nonce/VUB window, shared-data codec, checksum) proved for all inputs; Notary-bootstrap protocol model: safety proved for every committee size and every schedule (restarts, delays, foreign records); 'any live majority incl. the leader completes' proved for the repaired code on the fair schedule for n<=7 (and refuted for the code before fix commits 70faaf5/d247004, with an exact blocked/partial characterisation); real helpers, real enableNotary loops, real tick closures and the public deploy.Deploy are run on an in-process chain and compared with the model inside Coq",
+        "level_note": "partial: liveness proved as possibility on the fair round-robin schedule for n<=7; end-to-end convergence/exactly-once/idempotent re-run is run (n=1..4 quick; 2..7 with cancel/restart and late member thorough), not proved. Trusted: Coq kernel; hand-written protocol model (signatures abstracted to (key index, tx data), RPC never fails, pooled txs do not expire) tied to the real ticks step by step; neo-go node/RPC/Notary service; hook deploy/verif_export.go (add-only, build tag verif)",
+        "technique": "machine-checked proof in Rocq (Coq): invariant by induction over histories of a protocol model + computed characterisation for n<=7 + model/implementation correspondence by replaying observed schedules",
+        "harness_test": "TestC13",
+        "explanation": "(a) 900+ helper cases through the hook; (b) 23 (thorough 77) schedules of the real leader/signer ticks replayed in the model label by label, runs of the real enableNotary loops; (c) concurrent deploy.Deploy runs with final state and idle re-run compared with DeployProto.final_state",
+        "assumptions": ["members hold GAS for their own transactions (pre-funded by the harness)", "the chain includes every valid pooled transaction eventually; ErrInvalidSignature (-508) / ErrVerificationFailed (-500) as mapped by neo-go rpcsrv"],
     },
 }
